@@ -2,6 +2,7 @@ package checks
 
 import (
 	"crypto/sha256"
+	"encoding/binary"
 	"encoding/hex"
 	"encoding/json"
 	"fmt"
@@ -170,64 +171,96 @@ func fileMaxima(f IFile, key int) Prior {
 // respect to any even-sized buffer) and reads back the record of every key: each must hold what the file states.
 func c10Many(run *ev.Run, sizes []int) (int, error) {
 	checked := 0
-	for _, n := range sizes {
-		root := rig.Scratch("c10many")
-		w, err := NewSigWorkerOn(filepath.Join(root, "storage"), 2)
-		if err != nil {
-			os.RemoveAll(root)
-			return checked, err
-		}
-		f := IFile{Name: fmt.Sprintf("many:%d-keys", n), Meta: "ok"}
-		var keys [][]byte
-		for i := 0; i < n; i++ {
-			k := make([]byte, 48)
-			h := sha256.Sum256([]byte(fmt.Sprintf("c10-many-%d-%d", n, i)))
-			copy(k, h[:])
-			copy(k[32:], h[:16])
-			keys = append(keys, k)
-			e := IEntry{Key: -1, RawKey: "0x" + hex.EncodeToString(k), Blocks: []string{fmt.Sprint(100 + i)}}
-			if i != 0 {
-				e.Atts = [][2]string{{fmt.Sprint(10 + i), fmt.Sprint(20 + i)}}
+	for _, withPrior := range []bool{false, true} {
+		for _, n := range sizes {
+			root := rig.Scratch("c10many")
+			w, err := NewSigWorkerOn(filepath.Join(root, "storage"), 2)
+			if err != nil {
+				os.RemoveAll(root)
+				return checked, err
 			}
-			f.Entries = append(f.Entries, e)
-		}
-		if err := w.Rig.StopStore(); err != nil {
-			w.Close()
-			os.RemoveAll(root)
-			return checked, err
-		}
-		file := filepath.Join(root, "many.json")
-		_ = os.WriteFile(file, f.render(nil), 0o600)
-		code, _, se, err := rig.CLI(w.Rig.Dir, "--import-slashing-protection", "--genesis-validators-root", rig.GVR, "--slashing-protection-file", file)
-		if err == nil {
-			err = w.Rig.StartStore()
-		}
-		if err != nil {
-			w.Close()
-			os.RemoveAll(root)
-			return checked, err
-		}
-		if code == 0 {
-			for i, k := range keys {
-				checked++
-				_, slot, _ := w.Rig.PropRecord(k)
-				_, as, at, _ := w.Rig.AttRecord(k)
-				wantS, wantT := int64(10+i), int64(20+i)
-				if i == 0 {
-					wantS, wantT = -1, -1
+			f := IFile{Name: fmt.Sprintf("many:%d-keys", n), Meta: "ok"}
+			var keys [][]byte
+			for i := 0; i < n; i++ {
+				k := make([]byte, 48)
+				h := sha256.Sum256([]byte(fmt.Sprintf("c10-many-%d-%d", n, i)))
+				copy(k, h[:])
+				copy(k[32:], h[:16])
+				keys = append(keys, k)
+				e := IEntry{Key: -1, RawKey: "0x" + hex.EncodeToString(k), Blocks: []string{fmt.Sprint(100 + i)}}
+				if i != 0 {
+					e.Atts = [][2]string{{fmt.Sprint(10 + i), fmt.Sprint(20 + i)}}
 				}
-				if slot < int64(100+i) || as < wantS || at < wantT {
-					run.Violate(fmt.Sprintf("many-keys-unprotected:n=%d", n),
-						fmt.Sprintf("import of %d keys reported success; the file states slot %d, attestation %d->%d for key #%d, the store holds slot %d, attestation %d->%d", n, 100+i, wantS, wantT, i, slot, as, at),
-						map[string]any{"check": "C10", "many_keys": n, "key_index": i})
-					break
+				f.Entries = append(f.Entries, e)
+			}
+			// With a history of its own for every key (values scattered around the file's): the import merges with a store
+			// that already holds two records per key.
+			prior := func(i int) (slot, as, at int64) {
+				h := sha256.Sum256([]byte(fmt.Sprintf("c10-prior-%d", i)))
+				return 40 + int64(i) + int64(h[0])%120, int64(i) + int64(h[1])%20, 15 + int64(i) + int64(h[2])%20
+			}
+			if withPrior {
+				for i, k := range keys {
+					ps, pas, pat := prior(i)
+					pr := make([]byte, 9)
+					pr[0] = 1
+					binary.LittleEndian.PutUint64(pr[1:], uint64(ps))
+					ar := make([]byte, 17)
+					ar[0] = 1
+					binary.LittleEndian.PutUint64(ar[1:9], uint64(pas))
+					binary.LittleEndian.PutUint64(ar[9:17], uint64(pat))
+					if err := w.Rig.Rules.VerifRawPut(w.Rig.Ctx, append(append([]byte{}, k...), 0x03), pr); err != nil {
+						return checked, err
+					}
+					if err := w.Rig.Rules.VerifRawPut(w.Rig.Ctx, append(append([]byte{}, k...), 0x02), ar); err != nil {
+						return checked, err
+					}
 				}
 			}
-		} else {
-			run.Violate(fmt.Sprintf("many-keys-refused:n=%d", n), fmt.Sprintf("import of a well-formed file with %d keys failed (exit %d): %s", n, code, firstWords(se, 30)), map[string]any{"check": "C10", "many_keys": n})
+			if err := w.Rig.StopStore(); err != nil {
+				w.Close()
+				os.RemoveAll(root)
+				return checked, err
+			}
+			file := filepath.Join(root, "many.json")
+			_ = os.WriteFile(file, f.render(nil), 0o600)
+			code, _, se, err := rig.CLI(w.Rig.Dir, "--import-slashing-protection", "--genesis-validators-root", rig.GVR, "--slashing-protection-file", file)
+			if err == nil {
+				err = w.Rig.StartStore()
+			}
+			if err != nil {
+				w.Close()
+				os.RemoveAll(root)
+				return checked, err
+			}
+			if code == 0 {
+				for i, k := range keys {
+					checked++
+					_, slot, _ := w.Rig.PropRecord(k)
+					_, as, at, _ := w.Rig.AttRecord(k)
+					wantSlot, wantS, wantT := int64(100+i), int64(10+i), int64(20+i)
+					if i == 0 {
+						wantS, wantT = -1, -1
+					}
+					own := ""
+					if withPrior {
+						ps, pas, pat := prior(i)
+						wantSlot, wantS, wantT = maxi(wantSlot, ps), maxi(wantS, pas), maxi(wantT, pat)
+						own = fmt.Sprintf(" and the instance's own history slot %d, attestation %d->%d", ps, pas, pat)
+					}
+					if slot < wantSlot || as < wantS || at < wantT {
+						run.Violate(fmt.Sprintf("many-keys-unprotected:n=%d:prior=%v", n, withPrior),
+							fmt.Sprintf("import of %d keys reported success; the file states slot %d, attestation %d->%d for key #%d%s, the store holds slot %d, attestation %d->%d", n, 100+i, 10+i, 20+i, i, own, slot, as, at),
+							map[string]any{"check": "C10", "many_keys": n, "key_index": i, "with_prior": withPrior})
+						break
+					}
+				}
+			} else {
+				run.Violate(fmt.Sprintf("many-keys-refused:n=%d", n), fmt.Sprintf("import of a well-formed file with %d keys failed (exit %d): %s", n, code, firstWords(se, 30)), map[string]any{"check": "C10", "many_keys": n})
+			}
+			w.Close()
+			os.RemoveAll(root)
 		}
-		w.Close()
-		os.RemoveAll(root)
 	}
 	return checked, nil
 }
